@@ -168,7 +168,7 @@ def chain_plan(tier):
     dirty_pool = carriers_only if tier == "quick" else pool
     for a_index, a_name in enumerate(carriers_only):
         for start in range(0, len(dirty_pool), CHAIN_WIDTH):
-            phase = "token" if (a_index + start // CHAIN_WIDTH) % 2 == 0 else "line"
+            phase = ("token", "line", "prov")[(a_index + start // CHAIN_WIDTH) % 3]
             plan.append(("scan", a_name, dirty_pool[start : start + CHAIN_WIDTH], False, phase))
     return plan
 
@@ -208,7 +208,10 @@ def _gen_chain(tier, index):
     sc = {"cls": [0, "utf8"], "world": dict(NEUTRAL_WORLD), "shape": "chain", "group": None, "ops": [op], "plan": [], "chain": [a_name, b_names]}
     if dirty:
         sc["shape"] = "dirty-chain"
-        site_name = "cb/zzz999/next_token" if dirty == "token" else "cb/zzz999/next_line"
+        # token / line: exception at the last rule in dispatch order, after every
+        # built-in rule has seen that token / line; prov: the parser itself fails from
+        # inside its main loop, at a read of the document's middle line
+        site_name = {"token": "cb/zzz999/next_token", "line": "cb/zzz999/next_line", "prov": "prov"}[dirty]
         dry = cached_run(_history_request(sc, record_sites=True), sc["cls"])
         if done(dry):
             counts = collections.Counter()
@@ -218,7 +221,7 @@ def _gen_chain(tier, index):
             a_files = [path for path in sorted(files) if labels[path] == a_name and sorted(files).index(path) % 2 == 0]
             for path in a_files:
                 if counts.get(path):
-                    sc["plan"].append({"site": site_name, "file": path, "ord": max(1, (counts[path] + 1) // 2), "act": "raise_after", "exc": "RuntimeError", "op": 0})
+                    sc["plan"].append({"site": site_name, "file": path, "ord": max(1, (counts[path] + 1) // 2), "act": "raise_after" if dirty != "prov" else "raise", "exc": "RuntimeError", "op": 0})
     return sc
 
 
